@@ -191,6 +191,30 @@ def run(rep, tier, seed):
                 r = float(np.max(np.abs(Fv[alg_rows])))
                 if not r <= 2e-6:
                     fails.append((case, f"{sname}: first row has algebraic residual {r:.3g}: the integration starts from an inconsistent point silently"))
+    # ---- an algebraic start at which the algebraic Jacobian is exactly singular (0 = z^2 - x started at z = 0), sparse and dense
+    #      linear algebra: the projection cannot succeed; the solvers must raise or return a finite, consistent first row
+    from scipy.sparse import csc_array as _csc
+    from Solverz.num_api.num_eqn import nDAE as _nDAE
+    Ms = _csc((np.array([1.0]), (np.array([0]), np.array([0]))), shape=(2, 2))
+    for sparse in (True, False):
+        Jf = (lambda t, y, p: _csc(np.array([[-1.0, 0.0], [-1.0, 2.0 * y[1]]]))) if sparse else \
+            (lambda t, y, p: np.array([[-1.0, 0.0], [-1.0, 2.0 * y[1]]]))
+        sing = _nDAE(Ms, lambda t, y, p: np.array([-y[0], y[1] ** 2 - y[0]]), Jf, {})
+        for x0 in (1.0, 1e-4, 4.0):
+            for sname, solver in solvers.items():
+                nruns += 1
+                case = dict(problem="x' = -x, 0 = z^2 - x", y_start=[x0, 0.0], sparse_jacobian=sparse, solver=sname)
+                try:
+                    sol = quiet(solver, sing, [0.0, 0.1], np.array([x0, 0.0]), 1e-3)
+                except Exception:  # noqa
+                    continue
+                Y0 = np.asarray(sol.Y)[0]
+                if not np.all(np.isfinite(Y0)):
+                    fails.append((case, f"{sname}: no error was raised and the first row is not finite: {Y0}"))
+                elif f2h(Y0[0]) != f2h(x0):
+                    fails.append((case, f"{sname}: first row changed the differential variable: {x0!r} -> {Y0[0]!r}"))
+                elif not abs(Y0[1] ** 2 - Y0[0]) <= 2e-6:
+                    fails.append((case, f"{sname}: first row has algebraic residual {abs(Y0[1] ** 2 - Y0[0]):.3g}: starts from an inconsistent point silently"))
     rep.cov["evaluations"] = len(lines) + nruns
     rep.cov["distinct_nontrivial"] = len(set(lines))
     rep.cov["rule"] = ("quadratic-constraint family: coefficients, starts (incl. zero, tiny, far), rtol, t0 from fixed pools; exact comparison with the "
